@@ -135,9 +135,12 @@ structure MCfg where
   verifyValues       : Bool   -- verification compares values too (currently: key presence only)
   refusesExisting    : Bool   -- a `.hyd` file that is already there fails the swamp (phase "write") untouched,
                               -- instead of being opened for appending by `NewFileWriterWithName`
+  acceptsEqualTarget : Bool   -- … unless it holds exactly the legacy data (same keys, same values, same name): then the swamp
+                              -- counts as already migrated — nothing is written, the run goes on to the delete step
+  syncsBeforeDelete  : Bool   -- the new file is fsync'ed (`FileWriter.Close`) before `deleteV1Files` can run
   deriving DecidableEq, Repr, Inhabited
 
-def good : MCfg := ⟨true, true, true, true, true, true, true, true, false, true⟩
+def good : MCfg := ⟨true, true, true, true, true, true, true, true, false, true, true, true⟩
 
 /-- the V2 codec as a parameter: how a file is written from inserts and read back -/
 structure V2 (α : Type) (File : Type) where
@@ -152,6 +155,7 @@ structure V2 (α : Type) (File : Type) where
   loadMap : File → α → Option α
   nameOf  : File → α
   hasKey  : File → α → Bool      -- `LoadIndex` (used by verification)
+  keys    : File → List α        -- the keys of the loaded index (used by the target-equals-legacy test)
 
 structure Opts where
   verify    : Bool
@@ -184,6 +188,7 @@ structure Disk (α : Type) (File : Type) where
   v1       : Folder α        -- V1 files still present
   v1Folder : Bool            -- the swamp folder itself still exists
   hyd      : Option File
+  hydSynced : Bool := true   -- what is at the target path has been fsync'ed
   deriving Repr
 
 section
@@ -201,6 +206,9 @@ structure V2.Lawful {File : Type} (v : V2 α File) (okE : Entry α → Prop) (ok
   keys : ∀ nm es k, okN nm → (∀ e ∈ es, okE e) → (es.map Prod.fst).Nodup → v.hasKey (v.write nm es) k = (lookup es k).isSome
   acc  : ∀ e, okE e → v.accepts e = true
   accN : ∀ nm, okN nm → v.acceptsName nm = true
+  /-- every key a file loads is listed (any file, not only written ones) -/
+  keysSound : ∀ f k, (v.loadMap f k).isSome = true → k ∈ v.keys f
+  keysWritten : ∀ nm es k, okN nm → (∀ e ∈ es, okE e) → (es.map Prod.fst).Nodup → k ∈ v.keys (v.write nm es) → (lookup es k).isSome = true
 
 /-- the trivial codec used by the driver -/
 def idV2 : V2 α (α × List (Entry α)) where
@@ -208,6 +216,7 @@ def idV2 : V2 α (α × List (Entry α)) where
   append f es := some (f.1, es ++ f.2.filter (fun e => !es.any (fun x => x.1 == e.1)))   -- the appended inserts win
   accepts _ := true
   acceptsName _ := true
+  keys f := f.2.map Prod.fst
   loadMap f k := lookup f.2 k
   nameOf f := f.1
   hasKey f k := (lookup f.2 k).isSome
@@ -223,6 +232,11 @@ def deleteV1 {File : Type} (ft : Fault) (d : Disk α File) : Disk α File :=
 def verifyOk {File : Type} (cfg : MCfg) (v : V2 α File) (f : File) (es : List (Entry α)) : Bool :=
   es.all (fun e => v.hasKey f e.1 && (!cfg.verifyValues || v.loadMap f e.1 == some e.2))
 
+/-- the target-equals-legacy test of a re-run: same swamp name, no key the legacy data does not have, every legacy record
+    there with its value -/
+def sameTarget {File : Type} (v : V2 α File) (f : File) (nm : α) (es : List (Entry α)) : Bool :=
+  v.nameOf f == nm && (v.keys f).all (fun k => (lookup es k).isSome) && es.all (fun e => v.loadMap f e.1 == some e.2)
+
 /-- `migrateSwamp` for one folder.  `nm0` = the swamp name in the meta file; `d.hyd` = what is at the target path
     before the run (`none` in a first migration; a file from an earlier run, or planted, otherwise). -/
 def migrate {File : Type} (cfg : MCfg) (v : V2 α File) (o : Opts) (ft : Fault) (nm0 : α) (d : Disk α File) :
@@ -236,14 +250,20 @@ def migrate {File : Type} (cfg : MCfg) (v : V2 α File) (o : Opts) (ft : Fault) 
     if es.isEmpty then
       (.skippedEmpty, if o.deleteOld && !o.dryRun then deleteV1 ft d else d)
     else if o.dryRun then (.success, d)
-    else if cfg.refusesExisting && d.hyd.isSome then (.failed "write", d)
+    else if cfg.refusesExisting && d.hyd.isSome then
+      -- a re-run: only a target that holds exactly the legacy data counts as already migrated
+      match d.hyd with
+      | some f =>
+        if cfg.acceptsEqualTarget && sameTarget v f nm es then (.success, if o.deleteOld then deleteV1 ft d else d)
+        else (.failed "write", d)
+      | none => (.failed "write", d)
     else
       -- what a complete write puts at the target path (`none`: the writer cannot even be created; nothing is touched)
       let target : Option File := match d.hyd with
         | none => if v.acceptsName nm then some (v.write nm es) else none
         | some f => v.append f es
       let del (x : Disk α File) : Disk α File := if o.deleteOld then deleteV1 ft x else x
-      let written (x : Disk α File) : Disk α File := { x with hyd := target }
+      let written (x : Disk α File) : Disk α File := { x with hyd := target, hydSynced := cfg.syncsBeforeDelete }
       -- `WriteEntry` refuses a record: same branch as a failing write of a block
       let wfails : Bool := ft.isWrite || target.isNone || es.any (fun e => !v.accepts e)
       -- a failed write leaves nothing (`os.Remove`) or a partial file
@@ -263,7 +283,7 @@ def migrate {File : Type} (cfg : MCfg) (v : V2 α File) (o : Opts) (ft : Fault) 
         o.verify && (ft = .verify || match x.hyd with
                                      | some f => !verifyOk cfg v f es
                                      | none => true)
-      let unwrite (x : Disk α File) : Disk α File := if cfg.removeOnVerifyFail then { x with hyd := none } else x
+      let unwrite (x : Disk α File) : Disk α File := if cfg.removeOnVerifyFail then { x with hyd := none, hydSynced := d.hydSynced } else x
       -- the three effects in the order the code performs them
       match cfg.writeBeforeDelete, cfg.verifyBeforeDelete with
       | true, true =>
@@ -287,10 +307,13 @@ def migrateGood {File : Type} (v : V2 α File) (o : Opts) (ft : Fault) (nm0 : α
   if ft = .load || ft = .metaRead || segs.any (fun s => s.key == default) then (.failed "load", d)
   else if es.isEmpty then (.skippedEmpty, if o.deleteOld && !o.dryRun then deleteV1 ft d else d)
   else if o.dryRun then (.success, d)
-  else if d.hyd.isSome then (.failed "write", d)
-  else if ft.isWrite || !v.acceptsName nm || es.any (fun e => !v.accepts e) then (.failed "write", d)
+  else match d.hyd with
+  | some f => if sameTarget v f nm es then (.success, if o.deleteOld then deleteV1 ft d else d) else (.failed "write", d)
+  | none =>
+  if ft.isWrite || !v.acceptsName nm || es.any (fun e => !v.accepts e) then (.failed "write", d)
   else if o.verify && (ft = .verify || !verifyOk good v (v.write nm es) es) then (.failed "verify", d)
-  else (.success, if o.deleteOld then deleteV1 ft { d with hyd := some (v.write nm es) } else { d with hyd := some (v.write nm es) })
+  else (.success, if o.deleteOld then deleteV1 ft { d with hyd := some (v.write nm es), hydSynced := true }
+                  else { d with hyd := some (v.write nm es), hydSynced := true })
 
 end
 
